@@ -5,6 +5,7 @@ import (
 	"errors"
 	"fmt"
 	"io"
+	"runtime/debug"
 	"testing"
 
 	lz4 "github.com/pierrec/lz4/v4"
@@ -115,16 +116,17 @@ func runC15W(c c15WCase, rec *stat.Rec) *stat.Failure {
 // ---------------------------------------------------------------- reader side
 
 type c15RCase struct {
-	Opts   wopts    `json:"opts"`
-	Data   gen.Data `json:"data"`
-	R      rcfg     `json:"reader"`
-	FailAt int      `json:"failat"` // 0: no fault (fragmentation-only case)
-	Sticky bool     `json:"sticky"`
+	Opts     wopts    `json:"opts"`
+	Data     gen.Data `json:"data"`
+	R        rcfg     `json:"reader"`
+	FailAt   int      `json:"failat"` // 0: no fault (fragmentation-only case)
+	Sticky   bool     `json:"sticky"`
+	FailKind int      `json:"failkind,omitempty"` // 0 plain error, 1 wraps io.EOF, 2 wraps io.ErrUnexpectedEOF
 }
 
 func runC15RWith(c c15RCase, z, data []byte, rec *stat.Rec) *stat.Failure {
 	rec.Eval()
-	src := &inst.Source{Data: z, Chunks: c.R.Src, FailAt: c.FailAt, Sticky: c.Sticky}
+	src := &inst.Source{Data: z, Chunks: c.R.Src, EOFWith: c.R.EOFWith, FailAt: c.FailAt, Sticky: c.Sticky, FailWith: failErr(c.FailKind)}
 	rd := lz4.NewReader(src)
 	if err := rd.Apply(lz4.ConcurrencyOption(c.R.Conc)); err != nil {
 		return stat.Failf("C15/reader/apply-fails", "%v", err)
@@ -291,7 +293,7 @@ func TestC15Writer(t *testing.T) {
 func safelyF(f func() *stat.Failure) (res *stat.Failure) {
 	defer func() {
 		if r := recover(); r != nil {
-			res = stat.Failf("harness-or-library-panic", "panic: %v", r)
+			res = panicFailure("C15", r, debug.Stack())
 		}
 	}()
 	return f()
@@ -300,7 +302,7 @@ func safelyF(f func() *stat.Failure) (res *stat.Failure) {
 func TestC15Reader(t *testing.T) {
 	rec := stat.For("C15")
 	rec.SetRule(c15Rule)
-	rec.Require("reader/nontrivial", "reader/conc", "reader/seq", "reader/fault-free(fragmentation)")
+	rec.Require("reader/nontrivial", "reader/conc", "reader/seq", "reader/fault-free(fragmentation)", "reader/fault-free(data-with-EOF)")
 	n := pick(500, 8000)
 	n = (n + nshards - 1) / nshards
 	setRapid(n, "C15/reader")
@@ -322,21 +324,33 @@ func TestC15Reader(t *testing.T) {
 			return
 		}
 		// fault-free run under this fragmentation: counts the source calls
-		probe := &inst.Source{Data: z, Chunks: c.R.Src}
+		probe := &inst.Source{Data: z, Chunks: c.R.Src, EOFWith: c.R.EOFWith}
 		prd := lz4.NewReader(probe)
 		_ = prd.Apply(lz4.ConcurrencyOption(c.R.Conc))
 		_, _ = io.Copy(io.Discard, struct{ io.Reader }{prd})
 		cc := c
 		cc.FailAt = 0
 		judge(rt, "C15", "C15/reader", cc, safelyF(func() *stat.Failure { return runC15RWith(cc, z, data, rec) }))
-		// single-byte source with data+EOF together
-		cc.R.Src = []int{1}
-		judge(rt, "C15", "C15/reader", cc, safelyF(func() *stat.Failure { return runC15RWith(cc, z, data, rec) }))
+		// the fragmentation patterns the statement names, each fault-free: single bytes, data returned together with
+		// io.EOF (whole, halves, single bytes), interspersed zero-length reads
+		for _, fr := range []struct {
+			src []int
+			eof bool
+		}{{[]int{1}, false}, {[]int{1}, true}, {nil, true}, {[]int{len(z)/2 + 1}, true}, {[]int{0, 7, 0, 0, 1}, true}, {[]int{0, 3}, false}} {
+			cc.R.Src, cc.R.EOFWith = fr.src, fr.eof
+			judge(rt, "C15", "C15/reader", cc, safelyF(func() *stat.Failure { return runC15RWith(cc, z, data, rec) }))
+			if fr.eof {
+				rec.Class("reader/fault-free(data-with-EOF)")
+			}
+		}
 		ks := faultIndices(probe.Calls, 300, rt)
 		for _, k := range ks {
-			for v := 0; v < 2; v++ {
+			for v := 0; v < 3; v++ {
 				cc := c
 				cc.FailAt, cc.Sticky = k, v == 1
+				if v == 2 {
+					cc.FailKind = 1 + k%2 // an injected error that wraps io.EOF / io.ErrUnexpectedEOF
+				}
 				journal("C15", "C15/reader", cc)
 				judge(rt, "C15", "C15/reader", cc, safelyF(func() *stat.Failure { return runC15RWith(cc, z, data, rec) }))
 			}
